@@ -1517,11 +1517,47 @@ func (g *gen) next() string {
 	}
 }
 
+// genesisRoundTrip: the distribution state the history left behind (with the starting infos and reference counts
+// written by hand by handlerTransferShares) is a valid genesis: exported, the store wiped, imported again (InitGenesis
+// re-checks the module account against the outstanding rewards and the community pool) it gives the identical store —
+// a chain restarted from an export after share transfers keeps every delegator's reward entitlement.
+func (w *world) genesisRoundTrip() {
+	if w.dead {
+		return
+	}
+	cctx, _ := w.ctx().CacheContext()
+	key := w.s.App.GetKey(distrtypes.StoreKey)
+	before, n := hx.DumpStore(cctx, key)
+	r := hx.Try(func() error {
+		gs := w.s.App.DistrKeeper.ExportGenesis(cctx)
+		if err := gs.Validate(); err != nil {
+			return fmt.Errorf("exported distribution genesis does not validate: %w", err)
+		}
+		store := cctx.KVStore(key)
+		for _, kv := range hx.RawPrefix(cctx, key, nil) {
+			store.Delete(kv[0])
+		}
+		w.s.App.DistrKeeper.InitGenesis(cctx, *gs)
+		return nil
+	})
+	if r != "ok" {
+		w.violate("distribution genesis export / import after the history failed: " + r)
+		return
+	}
+	after, _ := hx.DumpStore(cctx, key)
+	if before != after {
+		w.violate("distribution store differs after a genesis export / import round trip (state written by share transfers is not restored identically)")
+		return
+	}
+	w.out.Count(fmt.Sprintf("genesis-roundtrip:distribution-ok/keys>=%d", n/10*10))
+}
+
 // finale: a new block, then every user withdraws and fully undelegates everywhere; each must succeed.
 func (w *world) finale(run func(string) string) {
 	if w.dead {
 		return
 	}
+	w.genesisRoundTrip()
 	run("block")
 	for d := range w.accs {
 		if !w.user(d) {
